@@ -10,6 +10,8 @@ func init() {
 		"a callback that returns an error has observed whatever it observed before returning; the Collect that returns its error is still a collection cycle of that reader and the data it left in rm is what the reader reported (pinned behaviour of the unchanged tree; only ManualReaders are used, so the PeriodicReader finding KF-C02-periodic-delta-dropped-on-callback-error is out of reach)",
 		"N concurrent Collect calls on one reader are N collection cycles; their outputs are attributed to callback rounds by ordering them by their earliest point Time (sound while the pipeline lock serialises cycles); each is bracketed by the whole concurrent step",
 		"int64 instruments are compared in exact (wrapping) int64 arithmetic, float64 instruments exactly on values generated to be exactly summable; generated int64 totals never overflow (<= 3 values of magnitude <= MaxInt64/4 per synchronous stream)",
+		"an instrument is its whole identity (scope name + version + schema URL + scope attributes, name, kind, number type, unit, description): instruments that differ in one part only are distinct instruments, each held to every clause on its own; output metrics are matched by scope identity + name + unit + description; names differing in case only are not generated",
+		"a meter / instrument obtained once more with identical parameters is the same instrument; the spelling of a measurement's attribute options (WithAttributeSet, WithAttributes, several options merged with the later one winning, as documented) does not change its attribute set",
 		"delta StartTime is bracketed by the harness's wall-clock readings around the previous delta collection (monotonic clock); the cardinality limit is left to C12",
 	))
 }
